@@ -62,10 +62,16 @@ def cover(graph: Graph, root_key, factory, step, project, clone=copy.deepcopy, m
     violations = []
     tested = 0
     visited = {root_key}
-    obj0 = factory()
-    p0 = project(obj0)
+    try:
+        obj0 = factory()
+        p0 = project(obj0)
+    except Mismatch as m:
+        return {"edges_tested": 0, "states_visited": 0, "violations": [{"what": "fresh object: " + m.what, "code": "initial:" + m.code, "detail": m.detail, "path": [{"op": "<construct>", "args": [], "exp": None}]}]}
     if canon(p0) != root_key:
-        raise Mismatch("initial projection differs", got=p0, want=graph.state[root_key])
+        # a freshly constructed object does not start in the model's initial state: a verdict about the code under test
+        return {"edges_tested": 0, "states_visited": 0, "violations": [
+            {"what": "the state of a freshly constructed object differs from the model's initial state", "code": "initial_state_differs",
+             "detail": {"got": p0, "want": graph.state[root_key]}, "path": [{"op": "<construct>", "args": [], "exp": None}]}]}
     # BFS over states; keep a real object per frontier state (small objects)
     queue = deque([(root_key, obj0, [])])
     while queue:
